@@ -1,12 +1,12 @@
 SPECIFICATION Spec
 CONSTANTS
-  Files = {"r", "a"}
+  Files = {"r", "a", "b"}
   Root = "r"
   MaxDepth = 8
-  FileSeq <- Seq2
+  FileSeq <- Seq3
   MaxStmts = 3
-  GenKinds = {"use", "forward", "import", "loadcss"}
-  GenSpellings = {"plain", "dot"}
+  GenKinds = {"use", "forward"}
+  GenSpellings = {"plain", "dot", "dd"}
   DevChoices <- DevIdeal
   MaxFaultAt = 0
 INVARIANTS LockDiscipline DepthBound LoopOnlyOnCycle NeverOverflow InitOnce OkOnlyAcyclic Emit
